@@ -71,6 +71,9 @@ def table : Kind → HandlerFacts
   | .transfer => ⟨true, true,
       [g (.present .token), g (.notAlias .token), g (.has .token .ibcexport), g .amountPositive]⟩
 
+/-- `GetEntry` looks at `.Denom` only, returns the first element whose denom is equal, else an error -/
+def lookupExpected : LookupFacts := ⟨["Denom"], 1, true, true⟩
+
 /-! ### judge predicates (on the implementation's own registry and outcome) -/
 
 /-- an accepted message held the permissions of the table -/
